@@ -768,6 +768,59 @@ class CliRules:
             b is None or (b[0] == 'c' and b[1] >= (seed_fields[fl].get('n') or 0)) for _, fl, b in seed_reads), where,
                '%d read(s) of a typed seed into the pack\'s byte array found in the dialogue' % len(set(seed_reads)))
 
+    # ------------------------------------------------------------------ key entry of the dialogue
+    def interactive_key(self):
+        """R16.g: in every function of the front ends that both validates and decodes a key text, the fixed-length decode is reached
+        only on paths on which the validator has just accepted that text (a failed read, an exhausted retry loop ... must not fall
+        through to the decode with a rejected or empty text)."""
+        prog, rec = self.prog, self.rec
+        fns = []
+        for g in prog.functions.values():
+            if g.get('body') is None:
+                continue
+            calls = {(x.get('callee') or {}).get('q') for x in walk(g['body']) if x['k'] == 'CallExpr'}
+            if 'is_valid_b64' in calls and 'base64_to_hex' in calls:
+                fns.append(g)
+        n = 0
+        for g in fns:
+            events = []
+
+            def m_valid(I, st, fr, nd, this, args, an):
+                s2 = st.copy()
+                st.comps['keytext_ok'] = (0, show(args[0]))
+                s2.comps['keytext_ok'] = (1, show(args[0]))
+                return [(st, C(0)), (s2, C(1))]
+
+            def m_dec(I, st, fr, nd, this, args, an):
+                events.append((nloc(nd), st.comps.get('keytext_ok'), show(args[0]), [str(x) for x in st.trace[-6:]]))
+                return [(st, C(1))]
+
+            def m_scan(I, st, fr, nd, this, args, an):
+                # the text may be replaced (or not, when the read fails): whatever was established about the old text is void
+                st.comps.pop('keytext_ok', None)
+                s2 = st.copy()
+                return [(st, C(1)), (s2, C(-1))]
+            mdl = self.mk_models()
+            mdl.update({'is_valid_b64': m_valid, 'base64_to_hex': m_dec, 'scanf': m_scan, 'printf': lambda I, st, fr, nd, this, args, an: [(st, TOP)],
+                        'puts': lambda I, st, fr, nd, this, args, an: [(st, TOP)]})
+            I = interp.Interp(prog, models=mdl)
+            st = interp.State()
+            st.comps['diag'] = False
+            st.comps['lockset'] = frozenset()
+            try:
+                I.run(g, st, args=[('ptop', 'arg', False)] * len(g['params']))
+            except interp.Budget as e:
+                rec.ob('R16.g', 'R16.g@%s::decode-only-after-accept' % fkey(g), None, '%s:%s' % (g['file'], g['line']), 'not analysed: %s' % e)
+                continue
+            rec.saw(I)
+            for wh, okv, txt, path in events:
+                n += 1
+                good = okv is not None and okv[0] == 1 and okv[1] == txt
+                rec.ob('R16.g', 'R16.g@%s::decode-only-after-accept' % fkey(g), good, wh,
+                       'the key text %s is decoded %s' % (txt, 'after the validator accepted it' if good else
+                                                          ('although the validator REJECTED it' if okv is not None and okv[0] == 0 else 'WITHOUT a verdict of the validator on it') + ' on this path'), path=path)
+        rec.count('R16.g gated key decodes', n, 1)
+
     # ------------------------------------------------------------------ exit status mapping
     def exit_mapping(self):
         prog, rec = self.prog, self.rec
@@ -794,12 +847,18 @@ class CliRules:
         def m_exec(name):
             def m(I, st, fr, n, this, args, an):
                 runs.append((name, st.comps.get('runner_T'), nloc(n)))
+                if name == 'execute_encrypt':
+                    # the seed handed to the kernel: a pointer argument into the parameter pack
+                    for a in args:
+                        if is_ptr(a) and a[0] == 'p' and a[1] == VP:
+                            seeds.append((nloc(n), a[2]))
                 s2 = st.copy()
                 st.comps['op'] = (name, 0)
                 s2.comps['op'] = (name, 1)
                 return [(st, C(0)), (s2, C(1))]
             return m
         runs = []
+        seeds = []
         rcq = None
 
         def m_rc_ctor(I, st, fr, n, this, args, an):
@@ -861,6 +920,18 @@ class CliRules:
             ok = is_int(code) and compare('!=', code, C(0), s.sym) is True
             rec.ob('R17.d', 'R17.d@%s::exit-call-nonzero' % fkey(f), ok, where, 'exit(%s) on a rejected settings value' % show(code))
         rec.count('R17.d main exits', n, 5)
+        # ---- R18.m the seed that reaches the kernel is the pack's seed member (not another view of the pack)
+        sf = self.fields.get('r_buf')
+        seen_m = set()
+        for wh_, path_ in seeds:
+            if (wh_, path_) in seen_m:
+                continue
+            seen_m.add((wh_, path_))
+            okm = bool(path_) and sf is not None and path_[0] == sf and (len(path_) == 1 or path_[1] in (0, C(0)))
+            rec.ob('R18.m', 'R18.m@%s::seed-argument-is-the-seed-member' % fkey(f), okm, wh_,
+                   'execute_encrypt is handed &pack%s as its seed (the seed member is %s)' % (''.join('[%s]' % (x,) for x in path_), sf))
+        if not seeds:
+            rec.ob('R18.m', 'R18.m@%s::seed-argument-is-the-seed-member' % fkey(f), None, where, 'no encrypt call with a pointer into the parameter pack found in main')
         # ---- R01.i the encrypting and the decrypting runner use the same stream count: the header length 48+20T is not stored in
         #      the file, so the reader finds the body only if it assumes the writer's T
         te = sorted({str(t) for n2, t, _ in runs if n2 == 'execute_encrypt'})
